@@ -142,6 +142,8 @@ class AbsRun:
         self.ev = _Ev(self)
         # tests (source text) under which the statements now running are reached, when a non-constant
         # `break` / conditional store made the rest conditional; hooks may read it
+        self.unknown: set = set()
+        self.lenient = False  # True: statements whose value is outside the domain are skipped unless a hook wants them
         self.guards: list[str] = []
         self._loop_depth = 0
         self._guard_pushed: list[int] = []
@@ -184,10 +186,20 @@ class AbsRun:
         if isinstance(s, ast.Expr):
             if isinstance(s.value, ast.Constant):
                 return
-            self.ev.ev(s.value)
+            try:
+                self.ev.ev(s.value)
+            except Inconclusive:
+                if not self.lenient:
+                    raise
             return
         if isinstance(s, ast.Assign) and len(s.targets) == 1 and isinstance(s.targets[0], ast.Name):
-            self.env[s.targets[0].id] = self.ev.ev(s.value)
+            try:
+                self.env[s.targets[0].id] = self.ev.ev(s.value)
+            except Inconclusive:
+                if not self.lenient:
+                    raise
+                self.env.pop(s.targets[0].id, None)
+                self.unknown.add(s.targets[0].id)
             return
         if isinstance(s, ast.AnnAssign) and isinstance(s.target, ast.Name) and s.value is not None:
             self.env[s.target.id] = self.ev.ev(s.value)
@@ -246,9 +258,19 @@ class AbsRun:
                 return
             self.block(s.body if t else s.orelse)
             return
-        if isinstance(s, ast.Assign) and len(s.targets) == 1 and isinstance(s.targets[0], (ast.Subscript, ast.Attribute)) and self.on_store is not None:
-            v = self.ev.ev(s.value)
-            if self.on_store(s.targets[0], v, self.ev):
+        if isinstance(s, (ast.Assign, ast.AnnAssign)) and self.on_store is not None and \
+                isinstance((s.targets[0] if isinstance(s, ast.Assign) else s.target), (ast.Subscript, ast.Attribute)) and \
+                (isinstance(s, ast.AnnAssign) or len(s.targets) == 1) and s.value is not None:
+            tgt = s.targets[0] if isinstance(s, ast.Assign) else s.target
+            try:
+                v = self.ev.ev(s.value)
+            except Inconclusive as exc:
+                if not self.lenient:
+                    raise
+                v = exc  # type: ignore[assignment]  # the hook sees why the value is not a form
+            if self.on_store(tgt, v, self.ev):
+                return
+            if self.lenient:
                 return
         if isinstance(s, ast.For) and isinstance(s.target, ast.Name) and isinstance(s.iter, ast.Call) \
                 and isinstance(s.iter.func, ast.Name) and s.iter.func.id in ("range", "reversed"):
